@@ -446,6 +446,73 @@ def err_checked(R, P):
     R.check(n >= 5, "ERR-CHECKED", "all-fallible-steps-tested", FILE, "%d calls of %s: every result is tested, returned or stored" % (n, sorted(fallible)), "only %d calls of the parser's fallible steps found" % n)
 
 
+def exact_guards(R, P):
+    """LIMITS/room-guard + preamble: (a) the skip refuses a node because `there is no room for its closing tag` only when the
+    closing tag really does not fit in what is left (NUM: name.len + overhead > doc_at_body.len) - an element with an empty
+    body at the very end of the document is well-formed; (b) the preamble loop is left only at a statement that is not a
+    preamble statement ('<?' or '<!') - any number of declarations, comments and processing instructions may precede the root"""
+    from sa.cfg import edges
+    f = P.fn("s_advance_to_closing_tag")
+    if R.require(f is not None, "s_advance_to_closing_tag not found"):
+        num = Num(f, P, XmlHooks(), max_paths=20000)
+        rets = [x for b in f.blocks.values() for x in b.elems if x["k"] == "ret"]
+        first = []
+        for r in rets:
+            blk = num.elem_of.get(r["id"], (None,))[0]
+
+            class _E:
+                pass
+            ev = _E()
+            ev.blk = blk
+            gs = [(f.show(f.d(c_)), p_) for c_, p_, b_ in RU.guards(f, ev)]
+            if any("closing_name_len" in t_ and "doc_at_body" in t_ and p_ for t_, p_ in gs):
+                # the innermost decision on the way to this return is the room test: this is its refusing arm
+                first.append(r)
+        if R.require(len(first) == 1, "s_advance_to_closing_tag: the room guard's error return not found (%d)" % len(first)):
+            try:
+                sts = num.states_at({first[0]["id"]})
+            except Limit as ex:
+                R.broken(str(ex))
+                sts = {}
+            ok, det, cnt = True, "", 0
+            for st in sts.get(first[0]["id"], []):
+                nl = [v for k, v in st.env.items() if k.endswith(")->name.len")]
+                dl = [v for k, v in st.env.items() if k.endswith(")->doc_at_body.len")]
+                cl = st.env.get("v:closing_name_len")
+                cnt += 1
+                if not dl or cl is None or not entails(st, dl[0] + 1 - cl):
+                    ok, det = False, "refused with closing_name_len = %r, doc_at_body.len = %s" % (cl, dl)
+            R.check(ok and cnt > 0, "LIMITS", "skip:refuses-only-when-the-closing-tag-does-not-fit", "%s:%d in %s()" % (FILE, first[0]["loc"][0], f.name), "the refusal implies closing_name_len > doc_at_body.len (%d states)" % cnt,
+                    "the skip refuses a node whose closing tag exactly fills the rest of the document (%s): a well-formed root with an empty body and nothing behind its end tag is rejected" % det)
+    g = P.fn("aws_xml_parse")
+    if R.require(g is not None, "aws_xml_parse not found"):
+        loops = Num(g, P, None).loops()
+        cand = [(h, body) for h, body in loops.items() if g.blocks[h].cond is not None and "doc.len" in g.show(g.blocks[h].cond)]
+        if R.require(len(cand) >= 1, "aws_xml_parse: preamble loop not found"):
+            h, body = cand[0]
+            bad = []
+            for b in body:
+                for s_, c_, p_ in edges(g, b):
+                    if s_ in body or c_ is None or not isinstance(p_, bool):
+                        continue
+                    # conditions known true on this way out (the branch itself and what dominates it inside the loop)
+                    t = RU.cmp_norm(g, c_, p_)
+                    if t and t[1] == "==" and t[2] is not None and g.is_const(t[2]) in (33, 63):
+                        bad.append(g.show(g.d(c_)))
+
+                    class _E2:
+                        pass
+                    ev2 = _E2()
+                    ev2.blk = b
+                    for c2, p2, b2 in RU.guards(g, ev2):
+                        if b2 in body:
+                            t2 = RU.cmp_norm(g, c2, p2)
+                            if t2 and t2[1] == "==" and t2[2] is not None and g.is_const(t2[2]) in (33, 63):
+                                bad.append(g.show(g.d(c2)))
+            R.check(not bad, "LIMITS", "preamble:left-only-at-a-non-preamble-statement", "%s in aws_xml_parse()" % FILE, "no way out of the preamble loop is taken at a '<?' or '<!' statement",
+                    "the preamble loop is left after a '<!' / '<?' statement (%s): a comment, processing instruction or second declaration that follows is handed to the root callback as if it were the root element" % sorted(set(bad)))
+
+
 def unchecked_appends(R, P):
     """ERR-CHECKED/appends: an append whose result is dropped must not be able to fail: NUM shows at each such call that
     the destination has room (the name-length guard and the pattern buffers' sizes agree)."""
@@ -604,9 +671,12 @@ def analyse(ctx, replace=None, only=None):
         unchecked_appends(R, P)
     if on("LIMITS"):
         limits(R, P)
+        exact_guards(R, P)
 
 
 MUTANTS = [
+    {"name": "room-guard-refuses-exact-fit", "file": FILE, "expect": "LIMITS", "old": "    if (closing_name_len > node->doc_at_body.len) {", "new": "    if (node->doc_at_body.len <= closing_name_len) {"},
+    {"name": "preamble-stops-after-doctype", "file": FILE, "expect": "LIMITS", "old": "            aws_byte_cursor_advance(&parser.doc, advance);\n        } else {\n            break;\n        }", "new": "            aws_byte_cursor_advance(&parser.doc, advance);\n            if (*(start + 1) == '!') {\n                break;\n            }\n        } else {\n            break;\n        }"},
     {"name": "pair-split-at-every-equals", "file": FILE, "expect": "DECL", "old": "aws_byte_cursor_split_on_char_n(&attribute_pair, '=', 1, &att_val_pair_lst)", "new": "aws_byte_cursor_split_on_char(&attribute_pair, '=', &att_val_pair_lst)"},
     {"name": "root-callback-failure-dropped", "file": FILE, "expect": "ERR-CHECKED", "scope": {"rules": ["ONCE"]}, "old": "    if (stack_data.cb(&sibling_node, stack_data.user_data)) {\n        return AWS_OP_ERR;\n    }\n\n    /* if the user simply returned while skipping the node altogether, go ahead and do the skip over. */\n    if (!sibling_node.processed) {",
      "new": "    int cb_result = stack_data.cb(&sibling_node, stack_data.user_data);\n\n    if (!cb_result && !sibling_node.processed) {"},
